@@ -106,7 +106,16 @@ def add_header_to_file(
             out.write("\n")
             path = _determine_license_suffix_path(path)
             created_license_file = not path.exists()
-            path.touch()
+            try:
+                path.touch()
+            except OSError as error:
+                out.write(
+                    _("Error: Could not write '{path}': {error}").format(
+                        path=path, error=error
+                    )
+                )
+                out.write("\n")
+                return 1
             comment_style = EmptyCommentStyle
 
     try:
